@@ -111,12 +111,21 @@ func (j *JsonQueryVisitorImpl) VisitLogicalExp(ctx *LogicalExpContext) interface
 	return ctx.Query(1).Accept(j).(bool)
 }
 
+// resetPath forgets the left operand and the path stack of the previous
+// comparison so that an absent path cannot inherit them.
+func (j *JsonQueryVisitorImpl) resetPath() {
+	j.leftOp = nil
+	j.stack.clear()
+}
+
 func (j *JsonQueryVisitorImpl) VisitPresentExp(ctx *PresentExpContext) interface{} {
+	j.resetPath()
 	ctx.AttrPath().Accept(j)
 	return j.leftOp != nil
 }
 
 func (j *JsonQueryVisitorImpl) VisitCompareExp(ctx *CompareExpContext) interface{} {
+	j.resetPath()
 	ctx.AttrPath().Accept(j)
 	ctx.Value().Accept(j)
 	if j.hasErr() {
